@@ -58,6 +58,7 @@ class INSObserver(StandardObserver):
             "el": self.elapsed(),
             "n_hist": len(ns.history["logZ"]) if ns.history else 0,
             "levels_on_disk": _levels_on_disk(ns),
+            "sched": repr(getattr(ns, "_last_checkpoint", None)),
         }
 
     def deep_digest(self, ns):
@@ -249,22 +250,9 @@ class INSObserver(StandardObserver):
 
         sbase.safe_file_dump = safe_file_dump
 
-        orig_checkpoint = sbase.BaseNestedSampler.checkpoint
+        from .observe import wrap_checkpoint
 
-        def checkpoint(ns, *a, **k):
-            import datetime as _dt
-
-            t_in = _dt.datetime.now()
-            obs.ckpt_entry = t_in
-            obs.ckpt_wrote = False
-            try:
-                return orig_checkpoint(ns, *a, **k)
-            finally:
-                if obs.ckpt_wrote:
-                    obs.excluded += (_dt.datetime.now() - t_in).total_seconds()
-                obs.ckpt_entry = None
-
-        sbase.BaseNestedSampler.checkpoint = checkpoint
+        wrap_checkpoint(obs)
 
     def user_met(self, ns):
         """Which of the user's criteria are met, pairing each criterion AS THE USER WROTE IT with the
